@@ -420,7 +420,9 @@ def r6(ctx):
         for t in [n for n in walk_no_nested(ip.node) if isinstance(n, ast.Try)]:
             if any(x is r for x in ast.walk(t)):
                 txt = u(t)
-                form = "angle" if "Operator, '<', '>'" in txt else "quote" if "StringConstant" in txt else "?"
+                pcs = [c for c in ast.walk(t) if isinstance(c, ast.Call) and callee(c) == "self.__path"]
+                pvals = [u(a) for c in pcs for a in c.args] + [u(k.value) for c in pcs for k in c.keywords]
+                form = "angle" if ("Operator, '<', '>'" in txt or sorted(pvals) == sorted(["Operator", "'<'", "'>'"])) else "quote" if "StringConstant" in txt else "?"
                 forms[form] = u(sysarg)
     ctx.check(forms == {"angle": "True", "quote": "False"}, "preprocessor:DirectiveParser.include_path:forms", f"<...> must give system=True and \"...\" system=False: {forms}", ip.loc())
     # find_include_file default and quote/system split is in R1
